@@ -335,3 +335,75 @@ func hourDir(db, meas string, us int64) string {
 	t := time.Unix(h*3600, 0).UTC()
 	return fmt.Sprintf("%s/%s/%04d/%02d/%02d/%02d", db, meas, t.Year(), int(t.Month()), t.Day(), t.Hour())
 }
+
+// walDeleteMonitor checks, at the instant start-up or periodic WAL recovery
+// removes a file it has just replayed, that every row of every intact entry of
+// that file is already in a complete Parquet file. (A removal by the purge
+// paths — no preceding read of the file by the same task — is not judged here:
+// purge-by-age and purge-on-shutdown assume the rows were flushed long ago,
+// and what they lose is judged by the end-of-run oracle.)
+type walDeleteMonitor struct {
+	n        *node
+	opened   map[int]map[string]bool // task id -> wal paths it opened for reading
+	Early    int                     // recovery removed a file whose rows were not all stored
+	EarlyMsg string
+	Checked  int
+}
+
+func (n *node) watchWALDeletes() *walDeleteMonitor {
+	m := &walDeleteMonitor{n: n, opened: map[int]map[string]bool{}}
+	simrt.SetFSObserver(func(op *simrt.FSOp, err error) {
+		t := simrt.CurTask()
+		if t == nil {
+			return
+		}
+		if op.Kind == "glob" {
+			// every purge pass and every recovery pass starts by listing the WAL
+			// directory: what this task read in an earlier pass no longer counts
+			delete(m.opened, t.ID())
+			return
+		}
+		if err != nil || op.Kind != "open" || !strings.HasSuffix(op.Path, ".wal") {
+			return
+		}
+		if m.opened[t.ID()] == nil {
+			m.opened[t.ID()] = map[string]bool{}
+		}
+		m.opened[t.ID()][op.Path] = true
+	})
+	simrt.SetFSPreObserver(func(op *simrt.FSOp) {
+		if op.Kind != "remove" || !strings.HasSuffix(op.Path, ".wal") {
+			return
+		}
+		t := simrt.CurTask()
+		if t == nil || !m.opened[t.ID()][op.Path] {
+			return // a purge, not a recovery delete
+		}
+		delete(m.opened[t.ID()], op.Path)
+		rids := map[int64]bool{}
+		walFileRids(op.Path, rids)
+		if len(rids) == 0 {
+			return
+		}
+		m.Checked++
+		stored := n.parquetRids()
+		missing := 0
+		var first int64
+		for id := range rids {
+			if !stored[id] {
+				if missing == 0 || id < first {
+					first = id
+				}
+				missing++
+			}
+		}
+		if missing > 0 {
+			m.Early++
+			if m.EarlyMsg == "" {
+				m.EarlyMsg = fmt.Sprintf("recovery removed %s after replaying it although %d of its %d rows (first rid %d) are in no complete Parquet file yet", filepath.Base(op.Path), missing, len(rids), first)
+			}
+			simrt.Event("WAL-RECOVERY-DELETE-EARLY %s missing=%d", filepath.Base(op.Path), missing)
+		}
+	})
+	return m
+}
